@@ -14,7 +14,7 @@ from .world import World
 ELEMENT_FORMS = {1: [1, "H", "h"], 6: [6, "C", "c"], 7: [7, "N", "n"], 8: [8, "O", "o"],
                  9: [9, "F", "f"], 17: [17, "Cl", "CL", "cl"], 35: [35, "Br", "BR", "br"],
                  15: [15, "P"], 16: [16, "S", "s"], 78: [78, "Pt", "PT", "pt"], 26: [26, "Fe", "FE"]}
-BAD_TYPES = ["Xx", 0, 119, None, -1, "", "carbon", 6.5, "cL", "nA", "hE", "bR", "fE", " C", "6"]
+BAD_TYPES = ["Xx", 0, 119, None, -1, "", "carbon", 6.5, "cL", "nA", "hE", "bR", "fE", " C", "6", "C1", "H2", "O3", "X", "D"]
 BAD_ROLES = ["formed", "FORMED", 1, None, "x", 0, "", False]
 ATTR_KEYS = ["charge", "label", "x"]
 ATTR_VALS = [0, 1, -1, "a", "b", 2]
@@ -369,6 +369,22 @@ class Gen:
             return dict(k=k, s=s, d=model.list_desc(d))
         if k == "set_bstereo":
             d = None if inval else self.bond_desc(m)
+            if rng.random() < 0.12:
+                # the one coincidence between the descriptor families: the six
+                # atoms of a trigonal bipyramid, in the same order and with the
+                # same parity, read as an axis over the bond of its 3rd and 4th
+                tb = [t for t in list(m.astereo.values()) + [x for tab in m.achange.values() for x in tab.values()]
+                      if t[0] == "TrigonalBipyramidal" and t[2] is not None and t[1][2] is not None and t[1][3] is not None
+                      and B(t[1][2], t[1][3]) in m.bonds]
+                if tb:
+                    t = tb[rng.randrange(len(tb))]
+                    d = ("AtropBond", tuple(t[1]), t[2])
+                    if m.has_changes and rng.random() < 0.5:
+                        br = m.bonds[B(t[1][2], t[1][3])].get("reaction")
+                        role = {None: rng.choice(ROLES), "BROKEN": "BROKEN", "FORMED": "FORMED", "FLEETING": "FLEETING"}[br]
+                        op = dict(k="set_bchange", s=s, broken=None, fleeting=None, formed=None)
+                        op[role.lower()] = model.list_desc(d)
+                        return op
             if d is None and m.bonds and (inval or rng.random() < 0.15):
                 d = self.wild_desc(m, False, dangling=inval and rng.random() < 0.3)
             if d is None:
@@ -669,6 +685,9 @@ class Gen:
                 op["key"] = rng.choice(BATTR_KEYS + ["reaction"])
         elif q == "active_atoms":
             op["layer"] = rng.choice((0, 0, 1, 2))
+        if q in ("get_formed_bonds", "get_broken_bonds", "get_fleeting_bonds", "active_atoms",
+                 "connected_components", "node_connected_component") and rng.random() < 0.3:
+            op["tamper"] = True     # the consumer extends the returned container in place
         return op
 
     # ------------------------------------------------------------------
@@ -847,6 +866,11 @@ class Gen:
 
     def tx_edit(self):
         rng = self.rng
+        if rng.random() < 0.03:
+            # another part of the library is used in between (an XYZ text with
+            # plain, numbered or unknown labels is read and written back)
+            pool_ = ["C", "H", "O", "N", "C1", "H2", "Cl", "cl", "X", "O3", "Fe", "D"]
+            yield dict(k="noise", what="xyz", labels=[rng.choice(pool_) for _ in range(rng.randint(1, 4))])
         c = self.graphs(unlocked=True)
         if not c:
             yield from self.tx_build()
@@ -1235,6 +1259,27 @@ class Gen:
             yield dict(k="relabel", src=src, dst=tgt, map=mp, copy=True)
         if self.w.graph(tgt) is None:
             return
+        if rng.random() < 0.2:
+            # the caller keeps one mapping dictionary and refills it: the same
+            # atoms sent somewhere else, twice in a row
+            for _ in range(2):
+                sl = self.w.graph(tgt)
+                if sl is None or sl.locks or not sl.model.atoms:
+                    break
+                keys = sl.model.sorted_atoms()[:rng.randint(1, 4)]
+                top = max(sl.model.sorted_atoms() + self.cfg["ids"]) + 1
+                vals = [top + i * rng.choice((1, 2)) + rng.randrange(2) for i in range(len(keys))]
+                vals = list(dict.fromkeys(vals))
+                if len(vals) != len(keys):
+                    break
+                yield dict(k="relabel", src=tgt, dst=None, map=[[a, b] for a, b in zip(keys, vals)], copy=False, reuse=True)
+                sl = self.w.graph(tgt)
+                if sl is None or sl.locks:
+                    break
+                # ... and back, through the same dictionary
+                back = [[b, a] for a, b in zip(keys, vals)]
+                if model.valid_relabel(sl.model, {a: b for a, b in back}):
+                    yield dict(k="relabel", src=tgt, dst=None, map=back, copy=False, reuse=True)
         if rng.random() < 0.3:
             # give a centre a new ligand, then rename just that atom
             rr = self.religand(tgt)
@@ -1966,6 +2011,9 @@ class Gen:
             if self.w.graph(d0) is not None:
                 s = d0
         yield dict(k="probe_enant", s=s)
+        if rng.random() < 0.4 and self.w.graph(s) is not None:
+            # once more, now that the graph has been an operand of comparisons
+            yield dict(k="probe_enant", s=s)
         if self.room() and rng.random() < 0.6:
             d = self.slot_id()
             yield dict(k="enantiomer", src=s, dst=d)
@@ -2215,6 +2263,9 @@ class Gen:
                 yield dict(k="drop", s=tt)
                 if td in self.w.slots and rng.random() < 0.7:
                     yield dict(k="drop", s=td)
+        if rng.random() < 0.25:
+            # the text comes back damaged first (and is read again, intact)
+            yield dict(k="restore_damaged", src=t, how=rng.choice(("class", "class", "short", "short", "cut")), at=rng.randrange(8))
         d = self.slot_id()
         yield dict(k="deserialize", src=t, dst=d)
         if rng.random() < 0.4 and self.room():
